@@ -121,6 +121,7 @@ pub struct SimCrash;
 /// Execute one run on a fresh OS thread (fresh thread-locals: `RandomState`
 /// keys, `thread_rng`), under the virtual clock and entropy seam.
 pub fn run_one(world: &'static dyn World, prop: &str, batch: &str, mut tape: Tape) -> (Report, Vec<u64>) {
+    RUN_STARTED_REAL_NS.store(clock::real_mono_ns(), std::sync::atomic::Ordering::SeqCst);
     let prop = prop.to_string();
     let batch = batch.to_string();
     *PANIC_MSG.lock().unwrap_or_else(|e| e.into_inner()) = None;
@@ -341,7 +342,23 @@ pub fn main(world: &'static dyn World) -> ! {
     std::process::exit(code)
 }
 
+static RUN_STARTED_REAL_NS: std::sync::atomic::AtomicI64 = std::sync::atomic::AtomicI64::new(0);
+
+fn start_watchdog() {
+    // a simulated actor that never reaches its next scheduling point must not hang the batch:
+    // exit 3 (the parent reports a harness error, never a verdict)
+    std::thread::spawn(|| loop {
+        clock::real_sleep_ms(2000);
+        let t = RUN_STARTED_REAL_NS.load(std::sync::atomic::Ordering::SeqCst);
+        if t != 0 && clock::real_mono_ns() - t > 180_000_000_000 {
+            eprintln!("HARNESS-ERROR: a single simulated run made no progress for 180 s of real time; aborting worker");
+            std::process::exit(3);
+        }
+    });
+}
+
 fn worker(world: &'static dyn World, a: &Args) -> i32 {
+    start_watchdog();
     let batch = a.batch.clone().expect("--batch");
     let out = std::io::stdout();
     let idxs: Vec<u64> = if a.reverse { (a.from..a.to).rev().collect() } else { (a.from..a.to).collect() };
